@@ -33,7 +33,7 @@ CORPUS = lib.VERIF / "harness" / "corpus" / "C13.json"
 
 PRELUDE = """import typing, collections.abc
 from typing import Any, Optional, Union, List, Dict, Tuple, Type, Callable, Literal, Annotated, Final, ClassVar, Sequence, Set, Iterable, Mapping
-from typing import NewType, TypedDict, Protocol, TypeVar
+from typing import NewType, TypedDict, Protocol, TypeVar, ParamSpec, Concatenate
 from typing_extensions import Unpack
 class A: pass
 class B(A): pass
@@ -44,7 +44,20 @@ class TD(TypedDict):
 class P(Protocol):
     def m(self) -> int: ...
 T = TypeVar("T")
+P2 = ParamSpec("P2")
+type IntOrStr = int | str
+type LA[X] = list[X]
 """
+
+# forms outside the model's vocabulary: evaluated through all five routes and compared with each
+# other (the oracle), never with the model; counted as "excluded" in the evidence
+EXCLUDED_FORMS = [
+    "IntOrStr", "LA[int]", "list[IntOrStr]", "Optional[LA[str]]", "tuple[IntOrStr, ...]", "type[IntOrStr]", "IntOrStr | None",
+    '"IntOrStr"', '"LA[int]"', 'list["IntOrStr"]', "dict[str, LA[IntOrStr]]",
+    "Annotated[int, 'meta']", "Annotated[int, {'k': 1}]", "Annotated[Optional[A], 'x', 2]", 'Annotated["A", "m"]',
+    "Callable[P2, int]", "Callable[Concatenate[int, P2], str]", "list[Callable[P2, T]]",
+    "List", "Dict", "Tuple", "Callable", "Type", "type", "tuple", "Sequence",
+]
 
 # class codes shared with the Coq model
 CLASSES = {"int": 1, "str": 1002, "bytes": 3, "float": 4, "A": 5, "B": 6, "object": 7, "filter": 9, "NT": 30, "TD": 31, "P": 32, "T": 33}
@@ -336,7 +349,11 @@ def encode_value(v):
             return 990  # the builtin, not the module's own class
         return CODE_OF_TYPE.get(n)
 
-    from pyanalyze.value import NewTypeValue, TypedDictValue, TypeVarValue
+    from pyanalyze.value import NewTypeValue, TypeAliasValue, TypedDictValue, TypeVarValue
+
+    if isinstance(v, TypeAliasValue):
+        # outside the model (has_other), but with a canonical text so that the routes can be compared
+        return ("other", "alias", v.name, tuple(encode_value(a) for a in v.type_arguments))
 
     if isinstance(v, NewTypeValue):
         return ("typed", 30) if v.name == "NT" else ("other", "newtype:" + v.name)
@@ -363,9 +380,12 @@ def encode_value(v):
     if isinstance(v, AnnotatedValue):
         inner = encode_value(v.value)
         ms = [m for m in v.metadata]
-        if ms and all(isinstance(m, KnownValue) and type(m.val) is int for m in ms):
-            return push_annot(inner, tuple(m.val for m in ms))
-        return ("other", "annotated:" + str(v)[:60])
+        # only int metadata is in the model's vocabulary; other metadata (strings, dicts, objects)
+        # does not change the type and is ignored by the comparison (counted in IGNORED_METADATA)
+        ints = tuple(m.val for m in ms if isinstance(m, KnownValue) and type(m.val) is int)
+        if len(ints) != len(ms):
+            IGNORED_METADATA[0] += 1
+        return push_annot(inner, ints) if ints else inner
     if isinstance(v, SequenceValue):
         if v.typ is tuple:
             return ("seq", tuple((bool(m), encode_value(x)) for m, x in v.members))
@@ -392,12 +412,15 @@ def encode_value(v):
         if c is None or v.literal_only:
             return ("other", str(v)[:60])
         return ("typed", c)
-    return ("other", type(v).__name__ + ":" + str(v)[:60])
+    return ("other", type(v).__name__ + ":" + re.sub(r"(<test input [0-9a-f]+>|c13_prelude)\.", "", str(v))[:80])
 
 
 def seal(c):
     """an error anywhere is a diagnostic of the whole annotation"""
     return ("err",) if contains(c, "err") else c
+
+
+IGNORED_METADATA = [0]
 
 
 def has_other(c):
@@ -586,6 +609,14 @@ def render_header(h, rng):
     return ", ".join(parts), ("" if ret is None else " -> " + render(ret, rng))
 
 
+def fdef(name, h, r):
+    """`def name[T](params) -> ret` from a header source whose parameter text may start with a PEP 695 "[T]" prefix"""
+    tp = ""
+    if h.startswith("[T]"):
+        tp, h = "[T]", h[3:]
+    return f"def {name}{tp}({h}){r}"
+
+
 def encode_sig(sig):
     from pyanalyze.signature import Signature
 
@@ -620,10 +651,10 @@ def impl_signatures(headers_src):
 
     code = PRELUDE
     for j, (h, r) in enumerate(headers_src):
-        code += f"def m{j}({h}){r}:\n    raise NotImplementedError\n"
+        code += fdef(f"m{j}", h, r) + ":\n    raise NotImplementedError\n"
     code += "def outer():\n"
     for j, (h, r) in enumerate(headers_src):
-        code += f"    def n{j}({h}){r}:\n        raise NotImplementedError\n    _v{j} = n{j}\n"
+        code += "    " + fdef(f"n{j}", h, r) + f":\n        raise NotImplementedError\n    _v{j} = n{j}\n"
     tree, errors, mod = run_visitor(code)
     outer = [n for n in tree.body if isinstance(n, ast.FunctionDef) and n.name == "outer"][0]
     vals = {}
@@ -705,14 +736,14 @@ def impl_calls(headers_src, rng, d: Path, tag):
     modname = f"c13mod_{tag}"
     body = PRELUDE
     for j, (h, r) in enumerate(headers_src):
-        body += f"def m{j}({h}){r}:\n    raise NotImplementedError\n"
+        body += fdef(f"m{j}", h, r) + ":\n    raise NotImplementedError\n"
     (d / f"{modname}.py").write_text(body)
     calls = [(j, a) for j in range(len(headers_src)) for a in rng.sample(CALL_ARGS, 5)]
     inmod = body + "def user():\n" + "".join(f"    m{j}({a})\n" for j, a in calls)
     imported = f"from {modname} import *\ndef user():\n" + "".join(f"    m{j}({a})\n" for j, a in calls)
     nested = PRELUDE + "def user():\n"
     for j, (h, r) in enumerate(headers_src):
-        nested += f"    def m{j}({h}){r}:\n        raise NotImplementedError\n"
+        nested += "    " + fdef(f"m{j}", h, r) + ":\n        raise NotImplementedError\n"
     nested += "".join(f"    m{j}({a})\n" for j, a in calls)
     res = {}
     for name, code in (("inmod", inmod), ("imported", imported), ("nested", nested)):
@@ -749,7 +780,7 @@ def model_sigs(headers):
         lst = lib.clist([sparam_term(p) for p in ps if p is not None])
         f = "(map (fun s => (s_name s, s_kind s, (s_default s, s_type s))) "
         r = "None" if ret is None else f"(Some {coq_expr(ret)})"
-        terms.append(f"({f}(map norm_sparam (sig_from_def {lst}))), {f}(map norm_sparam (sig_from_runtime {lst}))), (ret_from_def {r}, ret_from_runtime {r}))")
+        terms.append(f"({f}(sig_from_def {lst})), {f}(sig_from_runtime {lst})), (ret_from_def {r}, ret_from_runtime {r}))")
     vals = lib.coq_eval(HEADER, terms, name="c13s", jobs=6)
     out = []
     for d, r, (rd, rr) in vals:
@@ -834,10 +865,12 @@ def run(tier: str, replay: str | None = None):
         while len(headers) < want:
             h = pending.pop(0) if pending else gen_header(rng)
             hs = render_header(h, hr)
+            if hr.random() < 0.15:
+                hs = ("[T]" + hs[0], hs[1])
             try:  # the def statement must execute: typing rejects some nestings (Final inside Tuple[...], ...)
                 with warnings.catch_warnings():
                     warnings.simplefilter("ignore")
-                    exec(compile(f"def _probe({hs[0]}){hs[1]}: pass", "<probe>", "exec", dont_inherit=True), dict(ns0))
+                    exec(compile(fdef("_probe", hs[0], hs[1]) + ": pass", "<probe>", "exec", dont_inherit=True), dict(ns0))
             except Exception:
                 continue
             headers.append(h)
@@ -854,24 +887,36 @@ def run(tier: str, replay: str | None = None):
     # ------------------------------------------------------------------ routes
     rrng = random.Random(lib.seed() * 31 + 7)
     srcs = [render(e, rrng) for e in exprs]
+    if not replay:
+        exprs = exprs + [None] * len(EXCLUDED_FORMS)
+        srcs = srcs + list(EXCLUDED_FORMS)
     impl = impl_routes(srcs) if exprs else []
     models = None
     if model_ok and exprs:
         try:
-            models = model_routes(exprs)
+            models = model_routes([e if e is not None else ("EAny",) for e in exprs])
         except RuntimeError as ex:
             rep.violation({"kind": "broken-correspondence", "correspondence": "Annot.Routes evaluation failed", "detail": str(ex)[-1500:]}, no_failing_input=True)
     ROUTES = ["ast", "str", "rt", "vis", "visstr"]
     for i, (e, src, r) in enumerate(zip(exprs, srcs, impl)):
-        for x in walk(e):
-            bump("constructors", x[0])
-        clauses = guard_clauses(e)
-        bump("guard", "+".join(form_tags(e)) or "plain")
+        if e is not None:
+            for x in walk(e):
+                bump("constructors", x[0])
+            clauses = guard_clauses(e)
+            bump("guard", "+".join(form_tags(e)) or "plain")
+        else:
+            bump("guard", "excluded-form")
         if r["rt"][0] == "evalfail":
             bump("route_verdict", "not-evaluable")
             continue
-        if any(has_other(r[k]) for k in ROUTES):
-            bump("route_verdict", "out-of-fragment")
+        if any(has_other(r[k]) for k in ROUTES) or e is None:
+            # outside the model: the routes are still compared with each other
+            vals = {k: r[k] for k in ROUTES}
+            if len({repr(v) for v in vals.values()}) == 1:
+                bump("route_verdict", "excluded-from-model:routes-agree")
+            else:
+                bump("route_verdict", "excluded-from-model:routes-differ")
+                failing.append(({"source": src}, {k: jsonable(v) for k, v in vals.items()}, "the routes give different types (form outside the model)"))
             continue
         distinct.add(src)
         vals = {k: r[k] for k in ROUTES}
@@ -909,7 +954,7 @@ def run(tier: str, replay: str | None = None):
     for i, (h, hs, s) in enumerate(zip(headers, hsrc, sigs)):
         ps = [p for p in h[0] if p is not None]
         bump("sig_params", len(ps))
-        src = f"def f({hs[0]}){hs[1]}"
+        src = fdef("f", hs[0], hs[1])
         if isinstance(s["rt"], str):
             star = any("has_star_unpack" in guard_clauses(p[3]) for p in ps if p[3] is not None) or (h[1] is not None and "has_star_unpack" in guard_clauses(h[1]))
             if star and "C13-star-unpack-three-ways" in findings_text:
@@ -973,11 +1018,11 @@ def run(tier: str, replay: str | None = None):
                         validated += 1
                         bump("call_verdict", f"model:def={'binds' if m_def else 'rejected'},importer={'binds' if m_rt else 'rejected'}")
                     else:
-                        corr.append(({"header": jsonable(h), "source": f"def m({hsrc[sel[j]][0]}){hsrc[sel[j]][1]}; m({a})"},
+                        corr.append(({"header": jsonable(h), "source": fdef("m", hsrc[sel[j]][0], hsrc[sel[j]][1]) + f"; m({a})"},
                                      {"nested_def": res["nested"][ci], "imported": res["imported"][ci]}, {"def_binds": bool(m_def), "importer_binds": bool(m_rt)},
                                      "Calls.call_in_defining_scope/call_from_importer vs incompatible_call on the call"))
                 trio = (res["inmod"][ci], res["imported"][ci], res["nested"][ci])
-                src = f"def m({hsrc[sel[j]][0]}){hsrc[sel[j]][1]}; m({a})"
+                src = fdef("m", hsrc[sel[j]][0], hsrc[sel[j]][1]) + f"; m({a})"
                 if trio[0] == trio[1] == trio[2]:
                     bump("call_verdict", "same:" + ("diag" if trio[0] else "clean"))
                     continue
@@ -1024,6 +1069,8 @@ def run(tier: str, replay: str | None = None):
         expressions=len(exprs),
         headers=len(headers),
         calls=n_calls,
+        annotated_metadata_ignored=IGNORED_METADATA[0],
+        excluded_forms_compared=len(EXCLUDED_FORMS),
         exhaustive=False,
     )
     rep.assumptions = [
